@@ -150,6 +150,7 @@ class Enumerator:
         self.fresh_lists = False    # bind ``x = []`` to a unique symbol so that appends are linked
         self.opaque = opaque        # opaque(stmt, fi) -> bool  (slicing of compound statements)
         self.stop = stop            # stop(node, fi) -> bool    (cut the path before this node)
+        self.nonnull = None         # nonnull(call, fi, ctx) -> bool: the call returns an instance
         self._raise_cache = {}
         self._cfgs = {}
         self.n_paths = 0
@@ -160,6 +161,25 @@ class Enumerator:
             op = (lambda st: self.opaque(st, fi)) if self.opaque else None
             self._cfgs[fi.qualname] = build_cfg(fi.node, self.exc_parents, op)
         return self._cfgs[fi.qualname]
+
+    def _stored_names(self, fi):
+        c = self.__dict__.setdefault('_stored', {})
+        if fi.qualname not in c:
+            names = set(fi.params())
+            f = fi.parent
+            while f is not None:
+                names |= set(f.params())
+                for n in ast.walk(f.node):
+                    if isinstance(n, ast.Name) and isinstance(n.ctx, (ast.Store, ast.Del)):
+                        names.add(n.id)
+                f = f.parent
+            for n in ast.walk(fi.node):
+                if isinstance(n, ast.Name) and isinstance(n.ctx, (ast.Store, ast.Del)):
+                    names.add(n.id)
+                elif isinstance(n, ast.arg):
+                    names.add(n.arg)
+            c[fi.qualname] = names
+        return c[fi.qualname]
 
     def refined_raises(self, res, cexpr, frame):
         """Exception classes the callee may raise explicitly *for these arguments*: the
@@ -212,6 +232,13 @@ class Enumerator:
         if depth == 0:
             self.n_paths = 0
         env = {}
+        # module-level literals (hoisted constants) are the literal itself
+        sc = self.model.stable_consts(fi.module)
+        if sc:
+            local = self._stored_names(fi)
+            for k, v in sc.items():
+                if k not in local:
+                    env[k] = v
         if args:
             for k, v in args.items():
                 env[k] = v
@@ -238,6 +265,29 @@ class _Frame:
 
     # -- helpers -----------------------------------------------------------
     def evaluator(self, env):
+        ev = self._evaluator(env)
+        nn = self.en.nonnull
+        if nn is None:
+            return ev
+        base = ev.assume
+
+        def assume(e):
+            b = base(e) if base is not None else None
+            if b is not None:
+                return b
+            d = e
+            if isinstance(e, ast.Name):
+                d = env.get('$def:' + e.id)
+            if isinstance(d, ast.Await):
+                d = d.value
+            if isinstance(e, ast.Name) and isinstance(d, ast.Constant):
+                return Const(d.value)       # a kept local that is bound to a literal
+            if isinstance(d, ast.Call) and nn(d, self.fi, self.ctx):
+                return Kind('other', truthy=True)
+            return None
+        return AbsEval(assume, ev.const_expr)
+
+    def _evaluator(self, env):
         facts = env.get(FACTS)
         if not facts:
             return self.ev
@@ -480,7 +530,17 @@ class _Frame:
                     self.route_raised(node, env, events2, visits, raised, hcls)
                     return
                 cond = vals[0]
+                while isinstance(cond, ast.Call) and isinstance(cond.func, ast.Name) and \
+                        cond.func.id == 'bool' and len(cond.args) == 1 and not cond.keywords:
+                    cond = cond.args[0]     # as a condition, bool(x) is x
                 t = self.evaluator(env).truth(cond)
+                # a local that was tested before keeps the truth value it had then, whatever
+                # happened since to the state its defining expression reads
+                lkey = None
+                if isinstance(node.ast, ast.Name) and env.get(node.ast.id) is not None:
+                    lkey = '$local:' + node.ast.id
+                    if t is None:
+                        t = (env.get(FACTS) or {}).get(lkey)
                 self.exc_edges(node, env, events2, visits, raised, hcls)
                 for (succ, lab) in node.succ:
                     if lab not in ('T', 'F'):
@@ -498,6 +558,13 @@ class _Frame:
                         a, pl = atom(cond, want)
                         facts = dict(env.get(FACTS) or {})
                         facts[a] = pl
+                        if lkey:
+                            facts[lkey] = want
+                        env3 = dict(env)
+                        env3[FACTS] = facts
+                    elif lkey:
+                        facts = dict(env.get(FACTS) or {})
+                        facts[lkey] = want
                         env3 = dict(env)
                         env3[FACTS] = facts
                     ev2.append(e)
@@ -757,6 +824,9 @@ class _Frame:
                 # the name stays symbolic; its definition is recorded for the rule to check
                 env[target.id] = None
                 env['$def:' + target.id] = value
+                if env.get(FACTS) and ('$local:' + target.id) in env[FACTS]:
+                    env[FACTS] = {a: v for a, v in env[FACTS].items()
+                                  if a != '$local:' + target.id}
                 if events is not None:
                     events.append(Event('bind', expr=value, target=target, node=node,
                                         func=self.fi, depth=self.depth, ctx=self.ctx))
@@ -764,6 +834,9 @@ class _Frame:
             if self.en.fresh_lists and isinstance(value, ast.List) and not value.elts:
                 value = ast.Name('_list_L%s' % getattr(node, 'lineno', 0), ast.Load())
             env[target.id] = value
+            if env.get(FACTS) and ('$local:' + target.id) in env[FACTS]:
+                env[FACTS] = {a: v for a, v in env[FACTS].items()
+                              if a != '$local:' + target.id}
         elif isinstance(target, (ast.Tuple, ast.List)):
             if isinstance(value, (ast.Tuple, ast.List)) and len(value.elts) == len(target.elts):
                 for t, v in zip(target.elts, value.elts):
@@ -796,6 +869,23 @@ class _Frame:
                         if '.' in k:
                             del env[k]
 
+    @staticmethod
+    def _list_shaped(v):
+        if isinstance(v, ast.List):
+            return True
+        return isinstance(v, ast.BinOp) and isinstance(v.op, ast.Add) and \
+            _Frame._list_shaped(v.left) and _Frame._list_shaped(v.right)
+
+    def _local_list_append(self, call, env):
+        if isinstance(call, ast.Call) and isinstance(call.func, ast.Attribute) and \
+                call.func.attr == 'append' and isinstance(call.func.value, ast.Name) and \
+                len(call.args) == 1 and not call.keywords and \
+                not isinstance(call.args[0], ast.Starred):
+            name = call.func.value.id
+            if self._list_shaped(env.get(name)):
+                return name, call.args[0]
+        return None
+
     def do_stmt(self, node, env, events, visits, pending, hcls):
         st = node.ast
         if isinstance(st, (ast.Pass, ast.Import, ast.ImportFrom, ast.Global, ast.Nonlocal,
@@ -810,6 +900,23 @@ class _Frame:
         if isinstance(st, ast.Expr):
             if isinstance(st.value, ast.Constant):
                 self.follow_normal(node, env, events, visits, pending, hcls)
+                return
+
+            app = self._local_list_append(st.value, env)
+            if app is not None:
+                # ``x.append(a)`` on a local list whose construction is known is ``x += [a]``
+                name, arg = app
+
+                def k(vals, events2, raised, env=env):
+                    if vals is None:
+                        self.route_raised(node, env, events2, visits, raised, hcls)
+                        return
+                    env2 = dict(env)
+                    env2[name] = _list_concat(env[name], ast.List(
+                        [unawait(vals[0]).args[0]], ast.Load()))
+                    self.exc_edges(node, env, events2, visits, raised, hcls)
+                    self.follow_normal(node, env2, list(events2), visits, pending, hcls)
+                self.eval_calls(node, [st.value], env, list(events), k)
                 return
 
             def k(vals, events2, raised, env=env):
@@ -860,7 +967,14 @@ class _Frame:
                 ev2 = list(events2)
                 if isinstance(st.target, ast.Name):
                     cur = env.get(st.target.id) or ast.Name(st.target.id, ast.Load())
-                    env2[st.target.id] = ast.BinOp(cur, st.op, vals[0])
+                    lk = '$local:' + st.target.id
+                    if env2.get(FACTS) and lk in env2[FACTS]:
+                        env2[FACTS] = {a: v for a, v in env2[FACTS].items() if a != lk}
+                    if isinstance(st.op, ast.Add) and isinstance(cur, ast.List) and \
+                            isinstance(vals[0], ast.List):
+                        env2[st.target.id] = _list_concat(cur, vals[0])
+                    else:
+                        env2[st.target.id] = ast.BinOp(cur, st.op, vals[0])
                 else:
                     tgt = subst(st.target, env)
                     ev2.append(Event('write', expr=ast.BinOp(tgt, st.op, vals[0]),
@@ -882,6 +996,14 @@ class _Frame:
             return
         raise AnalysisError('statement %s not supported in path enumeration' %
                             type(st).__name__)
+
+
+def _list_concat(a, b):
+    """a + b for list displays: one display when both are."""
+    if isinstance(a, ast.List) and isinstance(b, ast.List) and not any(
+            isinstance(x, ast.Starred) for x in a.elts + b.elts):
+        return ast.List(list(a.elts) + list(b.elts), ast.Load())
+    return ast.BinOp(a, ast.Add(), b)
 
 
 def _replace_by_id(raw, repl):
